@@ -60,7 +60,9 @@ class RequestChannelCommon(StreamHandler, Publisher, Subscription, Disposable, m
 
     def frame_received(self, frame: Frame):
         if isinstance(frame, CancelFrame):
-            self.subscriber.subscription.cancel()
+            if self.subscriber.subscription is not None:  # there is none when this side has no publisher
+                self.subscriber.subscription.cancel()
+
             self.mark_completed_and_finish(sent=True)
         elif isinstance(frame, RequestNFrame):
             if self._sent_complete:
